@@ -448,6 +448,73 @@ func (x *Unit) lockOp(st *State, pc *preparedCall, name string, lock bool) {
 		nv = IntLit(0)
 	}
 	x.writeLV(st, &LV{kind: lvMap, parent: &LV{kind: lvGlobal, key: "lockHeld", typ: g.Typ}, idx: addr, typ: intT}, Val{nv, intT})
+	rg := x.ghostGet(st, "lockReleased")
+	if lock {
+		x.reacquireHavoc(st, pc, Select(x.u.MapVal(rg.T), addr))
+	} else {
+		x.writeLV(st, &LV{kind: lvMap, parent: &LV{kind: lvGlobal, key: "lockReleased", typ: rg.Typ}, idx: addr, typ: boolT}, Val{True, boolT})
+	}
+}
+
+// reacquireHavoc: a mutex that this call has released earlier is taken again. Between the two critical sections other
+// goroutines may have changed everything the mutex guards (guarded_by), so what the first section read is stale: the guarded
+// fields of the same object (for a map-typed field: the map's contents) become unknown where `released` holds.
+func (x *Unit) reacquireHavoc(st *State, pc *preparedCall, released T) {
+	if pc.call == nil || len(x.eng.guards) == 0 {
+		return
+	}
+	fun, ok := pc.call.Fun.(*ast.SelectorExpr)
+	if !ok {
+		return
+	}
+	muSel, ok := ast.Unparen(fun.X).(*ast.SelectorExpr)
+	if !ok {
+		return
+	}
+	bt := x.info.TypeOf(muSel.X)
+	if bt == nil {
+		return
+	}
+	stt, name, isPtr := structOfType(bt)
+	if stt == nil || !isPtr {
+		return
+	}
+	var fields []string
+	for i := 0; i < stt.NumFields(); i++ {
+		if mu, guarded := x.eng.guards[name+"."+stt.Field(i).Name()]; guarded && mu == muSel.Sel.Name {
+			fields = append(fields, stt.Field(i).Name())
+		}
+	}
+	if len(fields) == 0 {
+		return
+	}
+	if sf, ok := x.eng.specFuncs["quiet"]; ok && len(sf.psorts) == 0 && sf.rsort == SBool {
+		// quiet(): no other goroutine touches the object while the call runs (contracts state their sequential clauses under it)
+		x.useSpecFunc(sf)
+		released = And(released, Not(T{sf.smtName, SBool}))
+	}
+	base := x.eval(st, muSel.X)
+	x.inSpec++
+	defer func() { x.inSpec-- }()
+	for _, fname := range fields {
+		_, path, _ := types.LookupFieldOrMethod(bt, true, x.pkg.Types, fname)
+		if len(path) == 0 {
+			continue
+		}
+		lv := x.walkFields(st, &LV{kind: lvBlank, ref: base.T, typ: bt}, bt, path)
+		if lv == nil || lv.kind == lvBlank {
+			continue
+		}
+		cur := x.readLV(st, lv)
+		if _, isMap := under(cur.Typ).(*types.Map); isMap && !x.isGhostMap(cur) {
+			lv = x.mapLV(cur)
+			cur = x.readLV(st, lv)
+		}
+		x.note("a mutex released and taken again within one call: the fields it guards (guarded_by) are unknown at the second acquisition (other goroutines ran in between)")
+		nv := Val{Ite(released, x.fresh("reacq", cur.Sort), cur.T), lv.typ}
+		x.writeLV(st, lv, nv)
+		x.assume(st, x.typeInv(st, x.readLV(st, lv), 0))
+	}
 }
 
 func (x *Unit) onceDo(st *State, pc *preparedCall) []Val {
